@@ -95,6 +95,7 @@ func (c *cache) flushScheduler() {
 						for _, queued := range b {
 							c.flushObjs.Delete(queued)
 						}
+						c.flushObjs.Delete(addr) // may be not in b yet
 						break addrLoop
 					case c.flushCh <- b:
 					case <-c.closeCh:
